@@ -68,12 +68,16 @@ func runC04(r *engine.Run) {
 	r.Rule("WHO-batch", "(*PNodeDB).MultiPutNode reaches RocksDB only through WriteBatch.Put inside the loop over keys (key i with the encoding of node i) and exactly one DB.Write of that batch after the loop; no direct DB.Put/PutCF/Delete")
 	r.Rule("DOM-cancel", "see C05: a re-created node never stays recorded as deleted (it would be dropped from the save or pruned while live)")
 	r.Rule("FRESH-node", "see C03: a pending change whose bytes are overwritten in place is saved under a hash that no longer matches it")
+	r.Rule("WHO-livedelete", "in the trie operations, a node N fetched with key K (N = getNode(K), or N, K returned together by insert/delete/insertNode) that is handed to deleteNode never has K installed as a child reference (NewExtensionNode / insertExtension / PutChild argument, store to NodeKey) on a path through that deleteNode call: a node the rebuilt trie still references is not removed from the store nor recorded dead")
+	r.Rule("DOM-samekey", "in insertNode the change collector is told AddChange(old, new) only when there is no old node or bytes.Equal(old key, new key) tested false: an unchanged re-write does not put a live hash into the dead set")
 	r.NotDec = append(r.NotDec, "completeness of the change set for every history (needs the map semantics of C01)", "RocksDB's own crash behaviour")
 	whoCollect(r)
 	orderKeySave(r)
 	whoBatch(r)
 	freshNode(r, "C04")
 	domCancel(r)
+	whoLiveDelete(r, "WHO-livedelete")
+	domSameKey(r, "DOM-samekey")
 }
 
 func whoCollect(r *engine.Run) {
